@@ -197,6 +197,13 @@ class _TableFormSection(object):
   def is_relevant_section(cls, section_name):
     return cls._section_name_regex.match(section_name) != None
 
+  @staticmethod
+  def _check_finite(section_name, entry_name, values):
+    # float() also accepts 'nan' and 'inf', which are not data an interpolant can pass through.
+    for v in values:
+      if v != v or v in (float("inf"), float("-inf")):
+        raise ConfigParserException("Non-finite value '{}' found whilst parsing the '{}' entry of '{}'".format(v, entry_name, section_name))
+
   def _parse_x_y(self, section_name, section):
     x_string = section["x"]
     y_string = section["y"]
@@ -211,6 +218,9 @@ class _TableFormSection(object):
     except ValueError as e:
       raise ConfigParserException("Error converting value into a float whilst parsing the 'y' entry of '{}': {}".format(section_name, e.args[0]))
 
+    self._check_finite(section_name, 'x', x)
+    self._check_finite(section_name, 'y', y)
+
     if len(x) != len(y):
       raise ConfigParserException("The number of data items given in the  'x' and 'y' entries of '{}' do not match ({} != {})".format(section_name, len(x), len(y)))
 
@@ -223,6 +233,8 @@ class _TableFormSection(object):
       xy = [float(v) for v in xy_string.split()]
     except ValueError as e:
       raise ConfigParserException("Error converting value into a float whilst parsing the 'xy' entry of '{}': {}".format(section_name, e.args[0]))
+
+    self._check_finite(section_name, 'xy', xy)
 
     if len(xy) % 2 != 0:
       raise ConfigParserException("The number of data items in 'xy' is not even for '{}'. This indicates a different number of 'x' and 'y' items".format(section_name))
